@@ -17,6 +17,9 @@ THEOREMS = [
     "Qentem.Props.C19.C19_sequences2",
     "Qentem.Props.C19.step2_exact",
     "Qentem.BigInt.copy_spec",
+    "Qentem.BigInt.addAt_spec",
+    "Qentem.BigInt.subAt_spec",
+    "Qentem.BigInt.assign_zero_eq",
     "Qentem.Props.C19.step_exact",
     "Qentem.Props.C19.run_exact",
     "Qentem.Props.C19.C19_native",
@@ -67,6 +70,14 @@ INST = [(8, 8), (8, 9), (8, 16), (8, 32), (8, 256),
         (32, 2), (32, 3), (32, 4), (32, 16), (32, 64),
         (64, 1), (64, 2), (64, 3), (64, 4), (64, 16), (64, 32)]
 KS = [8, 16, 32, 64, 128]
+# operand / target types of the template overloads: (token, value bits); signed types carry non-negative
+# values; L / sL = unsigned long / long (64 bits, distinct from the 64-bit word type)
+TYPES = [("8", 8), ("16", 16), ("32", 32), ("64", 64), ("128", 128), ("L", 64),
+         ("s8", 7), ("s16", 15), ("s32", 31), ("s64", 63), ("s128", 127), ("sL", 63)]
+
+
+def pick_type(rng):
+    return rng.choice(TYPES) if rng.random() < 0.6 else rng.choice(TYPES[:5])
 
 
 def word_operand(rng, W):
@@ -164,43 +175,55 @@ def gen_sequence(rng, W, n, length):
         r = rng.random()
         fit = rng.random() < 0.85
         if r < 0.06:
-            K = rng.choice(KS)
+            ty, K = pick_type(rng)
             x = wide_operand(rng, W, K, M if fit else None)
-            ops.append("as:%d:%d" % (K, x)); v = x & M
-        elif r < 0.18:
-            K = rng.choice(KS)
+            ops.append("%s:%s:%d" % (rng.choice(["as", "as", "cn"]), ty, x)); v = x & M
+        elif r < 0.17:
+            ty, K = pick_type(rng)
             x = wide_operand(rng, W, K, (M - v) if fit else None)
-            ops.append("ad:%d:%d" % (K, x)); v = (v + x) & M
-        elif r < 0.28:
-            K = rng.choice(KS)
+            ops.append("ad:%s:%d" % (ty, x)); v = (v + x) & M
+        elif r < 0.26:
+            ty, K = pick_type(rng)
             x = wide_operand(rng, W, K, v if fit else None)
-            ops.append("sb:%d:%d" % (K, x)); v = (v - x) & M
+            ops.append("sb:%s:%d" % (ty, x)); v = (v - x) & M
+        elif r < 0.28:
+            # Add / Subtract(number, index)
+            i = rng.choice([0, 0, 1, n - 1, n, n + 1, rng.randrange(0, n + 1)])
+            x = word_operand(rng, W)
+            if rng.random() < 0.5:
+                if fit and v + (x << (W * i)) > M:
+                    x = min(x, (M - v) >> (W * i))
+                ops.append("ai:%d:%d" % (i, x)); v = (v + (x << (W * i))) & M
+            else:
+                if fit and (x << (W * i)) > v:
+                    x = min(x, v >> (W * i))
+                ops.append("si:%d:%d" % (i, x)); v = (v - (x << (W * i))) & M
         elif r < 0.33:
-            K = rng.choice(KS)
+            ty, K = pick_type(rng)
             x = wide_operand(rng, W, K, M if fit else None)
-            ops.append("or:%d:%d" % (K, x)); v = (v | x) & M
+            ops.append("or:%s:%d" % (ty, x)); v = (v | x) & M
         elif r < 0.37:
-            K = rng.choice(KS)
+            ty, K = pick_type(rng)
             x = wide_operand(rng, W, K, M if fit else None)
-            ops.append("an:%d:%d" % (K, x)); v = (v & x) & M
+            ops.append("an:%s:%d" % (ty, x)); v = (v & x) & M
         elif r < 0.50:
             x = word_operand(rng, W)
             if fit and v * x > M:
                 x = min(x, M // v) if v else x
                 if rng.random() < 0.5 and v:
                     x = min(wtop, M // v)
-            ops.append("mu:%d" % x); v = (v * x) & M
+            ops.append("%s:%d" % (rng.choice(["mu", "mu", "mun"]), x)); v = (v * x) & M
         elif r < 0.62:
             d = divisor(rng, W)
-            ops.append("dv:%d" % d)
+            ops.append("%s:%d" % (rng.choice(["dv", "dv", "dv", "dq"]), d))
             if d:
                 v //= d
         elif r < 0.74:
             k = shift_amount(rng, W, n, v, fit)
-            ops.append("sl:%d" % k); v = (v << k) & M if k < 2 * total + 64 else 0
+            ops.append("%s:%d" % (rng.choice(["sl", "sl", "sln"]), k)); v = (v << k) & M if k < 2 * total + 64 else 0
         elif r < 0.82:
             k = shift_amount(rng, W, n, v, False) if rng.random() < 0.5 else rng.randrange(0, max(1, v.bit_length() + 2))
-            ops.append("sr:%d" % k); v = v >> k if k < 2 * total + 64 else 0
+            ops.append("%s:%d" % (rng.choice(["sr", "sr", "srn"]), k)); v = v >> k if k < 2 * total + 64 else 0
         elif r < 0.88:
             # forward (object OP x) and reversed (x OP object) forms with the same operand; the operand is
             # often the low word of the value itself or its neighbours (equality boundary)
@@ -218,22 +241,40 @@ def gen_sequence(rng, W, n, length):
                 rel2 = rng.choice(["lt", "le", "gt", "ge", "eq", "ne"])
                 ops.append("r%s:%d" % (rel2, x))
         elif r < 0.92:
-            ops.append(rng.choice(["ib", "nz", "iz", "nu"]))
+            ops.append(rng.choice(["ib", "nz", "iz", "nu", "ib", "nz", "iz", "nu", "mi", "tw", "tb", "so"]))
         elif r < 0.95:
-            ops.append("nw:%d" % rng.choice(KS))
+            if rng.random() < 0.5:
+                ops.append("nw:%s" % rng.choice([t for t, _ in TYPES] + ["s8", "s16", "s32", "s64", "s128"]))
+            else:
+                # the operand aliases the object: b OP= b.Number()
+                o = rng.choice(["sad", "ssb", "sor", "san", "smu", "sdv"])
+                w0 = v & wtop
+                ops.append(o)
+                if o == "sad": v = (v + w0) & M
+                elif o == "ssb": v -= w0
+                elif o == "sor": v |= w0
+                elif o == "san": v &= w0
+                elif o == "smu": v = (v * w0) & M
+                elif w0: v //= w0
         elif r < 0.975:
             ops.append(rng.choice(["ff", "fl"]))
         elif r < 0.995:
-            o = rng.choice(["sv", "sv", "ld", "mv"])
+            o = rng.choice(["sv", "sv", "ld", "mv", "cc", "mc", "sa", "sm"])
             ops.append(o)
-            if o == "sv":
+            if o in ("sv", "cc"):
                 vt = v
             elif o == "ld":
                 v = vt
-            else:
+            elif o in ("mv", "mc"):
                 v, vt = vt, 0
-        else:
+        elif r < 0.998:
             ops.append("cl"); v = 0
+        else:
+            # raw mutators (outside the property; the model follows them, the oracle re-synchronises)
+            if rng.random() < 0.5:
+                ops.append("ix:%d" % rng.randrange(0, n))
+            else:
+                ops.append("st:%d:%d" % (rng.randrange(0, n), word_operand(rng, W)))
     return ops
 
 
@@ -413,8 +454,13 @@ def run(ctx):
             lines.append("bigseq %d %d %s" % (W, n, " ".join(gen_sequence(rng, W, n, L))))
     run_sequences(ctx, drv, exe, lines, "sequences")
     run_helpers(ctx, drv, exe)
+    from checks import _c19_api
+    rows, orow, unc = _c19_api.audit()
+    ctx.notes.append("public-API audit (checks/_c19_api.py): %d members, %d operand-type rows, uncovered: %s" % (len(rows), len(orow), unc or "none"))
+    if unc:
+        ctx.infra_errors.append("public API of BigInt not driven by the harness: %s" % unc)
     ctx.assumptions += [
-        "operands are unsigned (signed N_Number_T arguments are outside the property)",
+        "signed N_Number_T arguments carry non-negative values (negative ones: known finding, see notes/findings-bigint.txt)",
         "fixed instantiations: " + ", ".join("%dx%d" % (w, n) for (w, n) in INST) + " (word bits x word count)",
         "DoubleSize<_,64> at half widths 4 and 8 is exercised through a no-promotion integer class; BigInt itself only instantiates it at 64-bit words",
     ]
